@@ -28,7 +28,7 @@ RULE = (
 ASSUMPTIONS = [
     "reference recogniser (~150 lines) decides only nesting / pending-prefix structure; token validity is taken from the reader itself via the completed text",
     "prefixes ` #_ \\ #b #f #: #? at end of input and mismatched closers are 'undecided': only totality and data-only are checked there",
-    "forms inside syntax-quote and inside #() bodies are exempt from span re-reading (their symbols are rewritten by the reader)",
+    "forms inside syntax-quote and inside #() bodies are exempt from span re-reading (their symbols are rewritten by the reader), as are symbol keys that received their namespace from a #:ns{...} prefix",
 ]
 
 SIGMA = list("()[]{}\"\\'`~@^#_:/a1-.e \n;?")
@@ -212,7 +212,17 @@ def classify(s):
                 i = j
                 deliver()
                 continue
-            if d in "?:":
+            if d == "?":
+                # reader conditional #?( ... ) / #?@( ... ): nests like a list
+                j = i + 2
+                if j < n and s[j] == "@":
+                    j += 1
+                if j < n and s[j] == "(":
+                    stack.append(Frame("delim", close=")", extra="#?("))
+                    i = j + 1
+                    continue
+                return ("undecided", None)
+            if d == ":":
                 return ("undecided", None)
             if is_ws(d) or d.isdigit() or d in SYM_STOP or d in CLOSE:
                 return ("undecided", None)
@@ -445,6 +455,8 @@ class Ctx:
                         bq = s.find("`")
                         if 0 <= bq < b:
                             pass  # at or after a syntax quote: exempt (symbols are resolved / gensym'ed by the reader)
+                        elif isinstance(form, self.sym) and form.ns is not None and not text.startswith(form.ns + "/"):
+                            pass  # symbol key of a #:ns{...} map: the namespace was applied by the reader, the text is the bare name
                         elif varq and not routes_to_symbol(text):
                             pass  # #'<token>: the var-quote reader accepts tokens as symbols that no other position reads as a symbol
                         elif is_anon_fn and not text.startswith("#("):
@@ -545,7 +557,7 @@ ATOMS = ["a", "ns/b", ":k", ":n/k", "12", "-1.5", "1/2", '"s\\"x"', "\\c", "\\ne
 WRAPS = [
     "({0} {1})", "[{0} {1}]", "{{{0} {1}}}", "#{{{0}}}", "'{0}", "`{0}", "`(~{0} ~@{1})", "@{0}", "^:m [{0}]", "^{{:a 1}} [{0}]", "^a [{0}]",
     "#'a/b", "#_{0} {1}", "#(f {0} %)", "#py [{0}]", "#queue [{0}]", '#uuid "6ba7b810-9dad-11d1-80b4-00c04fd430c8"', '#inst "2020-01-01T00:00:00Z"',
-    '#b "a\\x00"', "#?(:lpy {0} :default {1})", "#:ns{{:a {0}}}", "; c\n{0}", "({0}\n  {1})", "[{0} #?@(:lpy [{1}])]", "#!x\n{0}", "{{:a {0}, :b {1}}}", '#f "a{{x}}b"',
+    '#b "a\\x00"', "#?(:lpy {0} :default {1})", "#:ns{{:a {0}}}", "#:ns{{y {0}}}", "#?(:lpy [{0}] :default {1})", "; c\n{0}", "({0}\n  {1})", "[{0} #?@(:lpy [{1}])]", "#!x\n{0}", "{{:a {0}, :b {1}}}", '#f "a{{x}}b"',
     "(quote {0})", "[{0}\n{1}\n]",
 ]
 
